@@ -11,7 +11,7 @@ from sim import core, gen_path as gp, observe as ob
 
 PROPERTY = "C17"
 LEVEL = "exploration"
-QUICK_RUNS = 24000
+QUICK_RUNS = 100000
 THOROUGH_RUNS = 1500000
 RULE = (
     "seeded histories: a grammar-directed path (2-8 commands, every letter, implicit repetition, inline close, "
@@ -254,9 +254,6 @@ def execute(case, se, out, trace):
             ok, msg = ob.snaps_equal(a, b, rel=1e-9)
             if not ok:
                 raise V("refinement", [la, fb, form, ob.kinds(ref)[-3:]], "after %s of %r to %r: %s ; incremental=%r one-shot=%r" % (form, piece, " ".join(pieces[: k + 1]), msg, _d(p), _d(ref)))
-            da, db = _d(p), _d(ref)
-            if da != db:
-                raise V("refinement-d", [la, fb, form], "d() differs: %r vs %r" % (da, db))
             out.count("probe:compared")
         return
     if mode == "pathpath":
